@@ -157,6 +157,8 @@ package reflection
 //@        callret("ParamObjectBuilder.resolveFieldDependency", ncalls("ParamObjectBuilder.resolveFieldDependency") - 1, 1) != nil && !lastOpt
 //@        && wraps(result1, callret("ParamObjectBuilder.resolveFieldDependency", ncalls("ParamObjectBuilder.resolveFieldDependency") - 1, 1))
 //@   ensures[C04] sets_only_after_resolving: ncalls("reflect.Value.Set") <= ncalls("ParamObjectBuilder.resolveFieldDependency")
+//@   ensures[C04,C15] swallowed_failures_are_only_not_found: result1 == nil ==> (forall c int :: 0 <= c && c < ncalls("ParamObjectBuilder.resolveFieldDependency") && callret("ParamObjectBuilder.resolveFieldDependency", c, 1) != nil ==>
+//@        callret("ParamObjectBuilder.resolveFieldDependency", c, 1) == ErrServiceNotFound || wraps(callret("ParamObjectBuilder.resolveFieldDependency", c, 1), ErrServiceNotFound))
 //@   loop 1
 //@     invariant monotone: (forall a int, c int :: 0 <= a && a < c && c < ncalls("ParamObjectBuilder.resolveFieldDependency") ==> pos[a] < pos[c])
 //@        && (forall a int :: 0 <= a && a < ncalls("ParamObjectBuilder.resolveFieldDependency") ==> pos[a] < i)
